@@ -364,7 +364,9 @@ impl<'a> Ex<'a> {
         }
         if self.c.file.kind == "weeded64" {
             // a file carrying hidden state (counts made with --filter-ambig-as-missing)
-            let w = wrap_fasta("w", &samples[0].records[0].1[..self.c.file.k + 8], 0);
+            // (the longest record: a generator may cut a sample into records shorter than k+8)
+            let rec = samples[0].records.iter().map(|r| &r.1).max_by_key(|r| r.len()).unwrap();
+            let w = wrap_fasta("w", &rec[..(self.c.file.k + 8).min(rec.len())], 0);
             self.dir.write("weed.fa", w.as_bytes());
             let r = self.run_seeded(
                 vec!["weed".into(), "orig.skf".into(), "weed.fa".into(), "--min-freq".into(), "1".into(), "--filter-ambig-as-missing".into()],
